@@ -120,7 +120,8 @@ def replay_minimal(cfg, ht, x, pos):
 
 
 # ---- membership history ---------------------------------------------------------------------------------------
-ALPHA = {2: [('10.20.30.3', 2004, 'a'), ('10.20.30.7', 2004, 'b'), ('10.20.30.13', 2004, 'b')],   # two nodes collide on one carbon_ch position (57808)
+ALPHA = {3: [('10.20.30.1', 2004, 'a'), ('10.20.30.3', 2004, 'b'), ('10.20.30.2', 2004, 'b')],   # collide on 48962 with a third node's entry next: a stale bump changes routing at ONE position
+         2: [('10.20.30.3', 2004, 'a'), ('10.20.30.7', 2004, 'b'), ('10.20.30.13', 2004, 'b')],   # two nodes collide on one carbon_ch position (57808)
          0: [('h1', 2004, 'a'), ('h2', 2004, 'b'), ('h3', 2004, 'c')],          # distinct instance names
          1: [('h1', 2004, 'a'), ('h2', 2004, 'a'), ('h3', 2004, 'a')]}          # equal names: fnv1a_ch collides on every replica
 
@@ -167,7 +168,7 @@ def _history_ring(alpha, ht, hi):
   return _HRINGS[key]
 
 
-for _a in (0, 1, 2):
+for _a in (0, 1, 2, 3):
   for _h in (0, 1):
     for _i in range(len(HISTORIES)):
       _history_ring(_a, _h, _i)
@@ -193,11 +194,11 @@ def replay_history(alpha, ht, hi, pos):
 
 def C06_history_table(alpha: int, ht: int, hi: int) -> bool:
   """
-  pre: 0 <= alpha <= 2 and 0 <= ht <= 1
+  pre: 0 <= alpha <= 3 and 0 <= ht <= 1
   pre: 0 <= hi < len(HISTORIES)
   post: __return__
   """
-  a, h, i = pick([0, 1, 2], alpha), pick([0, 1], ht), pick(list(range(len(HISTORIES))), hi)
+  a, h, i = pick([0, 1, 2, 3], alpha), pick([0, 1], ht), pick(list(range(len(HISTORIES))), hi)
   r, fresh = _history_ring(a, h, i)
   cover('compared')
   # membership bookkeeping equals the fresh relay's; ring tables are compared position-wise by C06_history
@@ -263,8 +264,8 @@ HARNESSES = [
     encodes=['carbon.hashing:ConsistentHashRing.remove_node', 'carbon.hashing:ConsistentHashRing.add_node', 'carbon.hashing:ConsistentHashRing.get_nodes',
              'carbon.routers:ConsistentHashingRouter.removeDestination'],
     assumptions=_ASSUME),
-  H('C06_history', quick=dict(timeout=280, shards=_history_shards([0], [0, 1], _QUICK_H) + _history_shards([2], [0], range(len(HISTORIES)))),
-    thorough=dict(timeout=900, shards=_history_shards([0], [0, 1], range(len(HISTORIES))) + _history_shards([1, 2], [0], range(len(HISTORIES)))),
+  H('C06_history', quick=dict(timeout=280, shards=_history_shards([0], [0, 1], _QUICK_H) + _history_shards([2, 3], [0], range(len(HISTORIES)))),
+    thorough=dict(timeout=900, shards=_history_shards([0], [0, 1], range(len(HISTORIES))) + _history_shards([1, 2, 3], [0], range(len(HISTORIES)))),
     covers=['same_table'], replay='replay_history',
     encodes=['carbon.routers:ConsistentHashingRouter.addDestination / removeDestination', 'carbon.hashing:ConsistentHashRing.add_node / remove_node / get_nodes'],
     assumptions=_ASSUME + ['%d valid add/remove histories of length <= 3 over 3 destinations starting from the full ring (quick: the first 8 of length <= 2), '
